@@ -508,6 +508,7 @@ def case_iso(ctx, cfg):
             for q in qs:
                 for obj, tag in ((Pg, "polygon"), (Sg, "segment")):
                     d_before, e0 = ctx.call(G.dist, P(G, q), obj)
+                    _ = ctx.call(lambda: (obj.area, obj.centroid, obj.edges) if tag == "polygon" else (obj.length, obj.midpoint))
                     d_img, e1 = ctx.call(lambda: G.dist(t * P(G, q), t * obj))
                     d_after, e2 = ctx.call(G.dist, P(G, q), obj)
                     ctx.trace(3)
